@@ -75,7 +75,8 @@ def build_case(rng, everything=False, flat=False):
         c.tree = t
     else:
         c.tree = gen_tree(rng, max_depth=rng.choice([1, 2, 3, 4]), case_twins=rng.random() < 0.3, index_module=rng.random() < 0.08, symlinks=rng.random() < 0.2,
-                          dirlinks=rng.random() < 0.2, follow=rng.random() < 0.5)
+                          dirlinks=rng.random() < 0.2, follow=rng.random() < 0.5,
+                          deep_chain=rng.choice([0] * 40 + [18, 34]), many_files=rng.choice([0] * 25 + [20, 40, 300, 700]))
     c.recursive = rng.random() < 0.8
     c.auto = rng.random() < 0.6
     c.everything = everything
